@@ -444,6 +444,12 @@ impl Engine {
             clean = false;
         }
         let after = walk_all_mode(s, self.skip, true);
+        if !is_clean_op && out.oc != Oc::Ok && after.leaves != before_s.leaves {
+            // representation-level clause that holds in every state: a call that returns an error changes no leaf entry
+            self.viol("C02", &format!("{}|got={:?}|failed-call-changed-a-leaf-entry-(reduced-oracle)", op, out.oc), &st.hist, Some(ai), "");
+            self.viol("C11", &format!("{}|got={:?}|a-leaf-mapping-changed-but-no-flush-token-was-returned", op, out.oc), &st.hist, Some(ai), "");
+            clean = false;
+        }
         if is_clean_op && after.leaves != before_s.leaves {
             self.viol("C10", &format!("{}|non-present-entries|entries-changed", op), &st.hist, Some(ai), "");
             clean = false;
